@@ -179,6 +179,10 @@ MUTANTS = [
                 }''', '''                let suffix_start = self.pos_within_token();
                 self.eat_literal_suffix();'''),
     M('parser:lhs:two-operators-one-node', 'parser', ['C05'], 'lhs', '            m = p.start();\n            p.bump_any();\n', '            m = p.start();\n            p.bump_any();\n            if p.at(T![-]) { p.bump_any(); }\n'),
+    M('lex:punct:tilde-is-bang', 'lex', ['C15'], "Cursor<'_>::advance_token", "'~' => Tilde,", "'~' => Bang,"),
+    M('lex:directive:dim-without-m', 'lex', ['C15'], "Cursor<'_>::have_dim", "                if self.first() == 'm' {\n                    self.bump();\n                    return true;\n                }", "                return true;"),
+    M('lex:directive:pragma-needs-no-space', 'lex', ['C15'], "Cursor<'_>::have_pragma", 'if is_whitespace(self.first()) {', 'if !is_id_continue(self.first()) {'),
+    M('lex:slash:star-is-line-comment', 'lex', ['C15'], "Cursor<'_>::advance_token", "                '*' => self.block_comment(),\n", ""),
     # ---- LEX extents
     M('lex:line_comment:stops-at-space', 'lex', ['C15', 'C14'], "Cursor<'_>::line_comment", "{ c != '\\n' });", "{ c != '\\n' && c != ' ' });"),
     M('lex:eat_identifier:start-test-inverted', 'lex', ['C15'], "Cursor<'_>::eat_identifier", 'if !is_id_start(self.first()) {', 'if is_id_start(self.first()) {'),
